@@ -141,14 +141,28 @@ Definition chk_stream (c : case) : bool :=
   forallb (fun so => (so_state so =? 0) || ((so_state so <? 3) && stream_has_cause (ops c) (so_sid so)))
           (o_streams (ob c)).
 (* entries at quiescence belong to calls that are still live and unanswered; equal digests share one *)
+(* a call that got its channel back counts as handed over only if its bid really reached an engine stream *)
+Definition was_emitted (c : case) (h : N) : bool := existsb (fun he => fst he =? h) (o_emitted (ob c)).
 Definition live_digests (c : case) : list bytes :=
-  flat_map (fun co => if ((co_res co =? 2) || (co_res co =? 3)) && (match co_vals co with [] => true | _ => false end)
+  flat_map (fun co => if (((co_res co =? 2) && was_emitted c (co_h co)) || (co_res co =? 3)) &&
+                         (match co_vals co with [] => true | _ => false end)
                       then match bid_of (ops c) (co_h co) with Some b => [b_dig b] | None => [] end
                       else []) (o_calls (ob c)).
 Fixpoint dedup_bytes (l : list bytes) : list bytes :=
   match l with [] => [] | x :: r => if existsb (bytes_eqb x) r then dedup_bytes r else x :: dedup_bytes r end.
+(* a call whose hand-off the driver abandoned (context cancelled before any engine stream had taken the
+   bid) never reaches an engine afterwards *)
+Fixpoint taken_after_abandon (l : list op) (subm ab : list N) : bool :=
+  match l with
+  | [] => false
+  | OSubmit h _ :: r => taken_after_abandon r (h :: subm) ab
+  | OAbandon h :: r => taken_after_abandon r subm (if existsb (N.eqb h) subm then h :: ab else ab)
+  | OTake h :: r => existsb (N.eqb h) ab || taken_after_abandon r (filter (fun x => negb (x =? h)) subm) ab
+  | _ :: r => taken_after_abandon r subm ab
+  end.
 Definition chk_leak (c : case) : bool :=
-  (o_pending (ob c) <=? N.of_nat (length (dedup_bytes (live_digests c)))).
+  (o_pending (ob c) <=? N.of_nat (length (dedup_bytes (live_digests c)))) &&
+  negb (taken_after_abandon (ops c) [] []).
 
 Definition violation (c : case) : option string :=
   if negb (chk_forwarded_valid c) then Some "forwarded-invalid"%string
